@@ -102,6 +102,15 @@ def run_case(case, rng):
     data = np.array([float(rng.randint(-9, 9)) + rng.choice([0.0, 0.5]) for _ in range(int(np.prod(shape)))]).reshape(shape)
     if cls_name in ("ProbabilityTable", "TabularPolicy"):
         data = np.abs(data) + 1.0
+        if shape[-1] >= 2 and rng.random() < 0.6:          # entries that are exactly 0 (one-hot rows, excluded actions)
+            flat = data.reshape(-1, shape[-1])
+            for r_ in range(flat.shape[0]):
+                if rng.random() < 0.6:
+                    keep = rng.randrange(shape[-1])
+                    for c_ in range(shape[-1]):
+                        if c_ != keep and rng.random() < 0.6:
+                            flat[r_, c_] = 0.0
+            data = flat.reshape(shape)
         data = data / data.sum(-1, keepdims=True)
     names = ["f%d" % i for i in range(nf)]
     if cls_name == "Table":
